@@ -19,6 +19,14 @@ Definition run_case09 (x : sx) : sx :=
     (* grammar-level encoding with the factorisation constant read from grammar_builder.rs *)
     let s := count_set bound (grepeat (N.to_nat REPEAT_K) GElt lo hi) in
     show (cs_get s)
+  else if is "repeat2" then
+    (* two repetitions of the same rule in one grammar: x{lo,hi} ";" x{lo2,hi2} — the counts are independent *)
+    let lo2 := N.to_nat (as_n (nth_sx a 3)) in
+    let hi2 := hi_of (as_z (nth_sx a 4)) in
+    let s1 := count_set bound (grepeat (N.to_nat REPEAT_K) GElt lo hi) in
+    let s2 := count_set bound (grepeat (N.to_nat REPEAT_K) GElt lo2 hi2) in
+    tagged "ok" [sns (flat_map (fun c1 => map (fun c2 => N.of_nat (c1 * 100 + c2)) (filter (cs_get s2) all))
+                               (filter (cs_get s1) all))]
   else if is "rxrepeat" then
     let r := normalize (Rep (lit [97]) (N.of_nat lo) (match hi with Some h => Some (N.of_nat h) | None => None end)) in
     show (fun c => re_match r (repeat 97 c))
